@@ -1024,6 +1024,10 @@ func nearValue(r *RNG, leaf *Node, idc *int) *AV {
 			}
 			return avStr(pick(r, semverNear))
 		case 6:
+			if r.Chance(1, 2) {
+				// the literal's own text with MALFORMED build metadata: not a version, whatever was parsed before
+				return avStr(v + pick(r, []string{"+", "+a..b", "+x_y", "+a+b", "+ ", "+é"}))
+			}
 			return avStr(pick(r, verPool) + pick(r, semverSuffix))
 		case 7:
 			return stringer(v)
